@@ -55,6 +55,37 @@ theorem linkIfAbsent_spec {c c' : Cfg} {h t : Nat} {cond : Option Expr} (hl : li
     · cases hl
     · cases hl
 
+theorem wf_setEdgeCond {c : Cfg} (hw : WF c) (h t : Nat) (cond : Option Expr) : WF (setEdgeCond c h t cond) := by
+  have hkeys : (setEdgeCond c h t cond).edges.map edgeKey = c.edges.map edgeKey := by
+    simp only [setEdgeCond, List.map_map]
+    apply List.map_congr_left
+    intro e _
+    simp only [Function.comp]
+    split <;> rfl
+  refine ⟨hw.blocksNodup, by rw [hkeys]; exact hw.edgesNodup, ?_, hw.indexLt, hw.blocksWF, hw.entryOk, hw.exitOk⟩
+  intro e he
+  simp only [setEdgeCond, List.mem_map] at he
+  obtain ⟨e0, he0, rfl⟩ := he
+  have := hw.edgesJoin e0 he0
+  split <;> exact this
+
+theorem linkOrMerge_spec {c c' : Cfg} {h t : Nat} {cond : Option Expr} (hl : linkOrMerge c h t cond = .ok c') :
+    (WF c → WF c') ∧ c'.blocks = c.blocks ∧ c'.entry = c.entry ∧ c'.nextIndex = c.nextIndex := by
+  unfold linkOrMerge at hl
+  split at hl
+  · split at hl
+    · split at hl
+      · split at hl
+        · simp only [Res.ok.injEq] at hl; subst hl
+          exact ⟨fun hw => wf_setEdgeCond hw _ _ _, rfl, rfl, rfl⟩
+        · cases hl
+        · cases hl
+      · simp only [Res.ok.injEq] at hl; subst hl; exact ⟨id, rfl, rfl, rfl⟩
+    · simp only [Res.ok.injEq] at hl; subst hl
+      exact ⟨fun hw => wf_setEdgeCond hw _ _ _, rfl, rfl, rfl⟩
+    · simp only [Res.ok.injEq] at hl; subst hl; exact ⟨id, rfl, rfl, rfl⟩
+  · exact linkIfAbsent_spec hl
+
 theorem placeInstr_spec {st st1 : AsmState} {g : Function} {en ex : Nat} (h : placeInstr st g = .ok (st1, en, ex)) :
     st1.blockIdx = st.blockIdx ∧ st1.instrIdx.lookup g.addr = some (en, ex) ∧
     ((st.instrIdx.lookup g.addr = some (en, ex) ∧ st1 = st) ∨
@@ -149,7 +180,7 @@ theorem succLoop_wf {st st1 : AsmState} {bx : Nat} (ss : List (Nat × Option Exp
     split at h
     · split at h
       · rename_i c hl
-        exact ih (st := { st with cfg := c }) h ((linkIfAbsent_spec hl).1 hw)
+        exact ih (st := { st with cfg := c }) h ((linkOrMerge_spec hl).1 hw)
       · cases h
       · cases h
     · cases h
